@@ -2,9 +2,12 @@
     does, see ParseOk.v), every amount of fuel and every well-formed machine, evaluation, the call loop, one statement
     and the whole run return a value, an error or run out of fuel -- never [Panic].  Along the way: an expression leaves
     the program position, the height of the scope stack, the loop stack and the return stack as they were (calls
-    included), and inside a function body the frame invariant of FrameInv.v holds at every step. *)
+    included), and inside a function body the frame invariant of FrameInv.v holds at every step.
+    (The layers are in NoPanicStep.v; the induction on fuel, shared with the scope-skeleton invariant, in Skeleton.v.) *)
 From Pakhi Require Import Base Float64 Syntax Tables Lexer Interp.
-From Pakhi.Proofs Require Import Unfold Frames WF WFOps FrameInv Scope.
+From Pakhi.Proofs Require Import Unfold Frames WF WFOps FrameInv Scope SkelDefs.
+From Pakhi.Proofs Require Export NoPanicStep.
+From Pakhi.Proofs Require Import Skeleton.
 From Coq Require Import Lia ZArith.
 Local Open Scope nat_scope.
 
@@ -21,525 +24,12 @@ Notation good := (good code).
 Notation Qe := (Qe code).
 Notation finv := (finv code).
 Notation frame_static := (frame_static code).
+Notation Pe := (Pe code).
+Notation Pcl := (Pcl code).
+Notation Pip := (Pip code).
 
-Definition Pe (ev : expr -> machine -> outcome (value * machine)) : Prop :=
-  forall e m, mwf m -> expr_ok e = true -> post (Qe m) (ev e m).
-
-Definition at_return (m : machine) : Prop := exists e p, stmt_at code (m_pc m) = Some (FReturn e p).
-
-Definition Pcl (cl : machine -> outcome machine) : Prop :=
-  forall m F, mwf m -> frame_static F -> finv F m ->
-    post (fun m' => mwf m' /\ hle (m_heap m) (m_heap m') /\ finv F m' /\ at_return m') (cl m).
-
-Definition Pip (ip : machine -> outcome machine) : Prop :=
-  forall m, mwf m ->
-    post (fun m' => mwf m' /\ hle (m_heap m) (m_heap m') /\ forall F, frame_static F -> finv F m -> finv F m') (ip m).
-
-Lemma Qe_of_good m m1 v : good m m1 -> vok (m_heap m1) v -> Qe m (v, m1).
-Proof. intros G H. split; assumption. Qed.
-
-Lemma Qe_trans m m1 r : good m m1 -> Qe m1 r -> Qe m r.
-Proof. intros G [G2 H]. split; [eapply good_trans; eauto|exact H]. Qed.
-
-Lemma good_set_heap m m1 h' : good m m1 -> hok h' -> hle (m_heap m1) h' -> good m (set_heap m1 h').
-Proof.
-  intros (W & S & L) Hh Hle. split; [apply mwf_set_heap; auto|]. split; [exact S|eapply hle_trans; eauto].
-Qed.
-
-Lemma good_mwf m m1 : good m m1 -> mwf m1. Proof. intros [H _]. exact H. Qed.
-Lemma good_hle m m1 : good m m1 -> hle (m_heap m) (m_heap m1). Proof. intros (_ & _ & H). exact H. Qed.
-
-(** ** the loops of the evaluator *)
-Section Loops.
-Variable ev : expr -> machine -> outcome (value * machine).
-Hypothesis Hev : Pe ev.
-
-Lemma eval_list_ok es : forall m, mwf m -> forallb expr_ok es = true ->
-  post (fun r => good m (snd r) /\ Forall (vok (m_heap (snd r))) (fst r)) (eval_list ev es m).
-Proof.
-  induction es as [|e r IH]; intros m Hm Hes; cbn [eval_list].
-  - split; [apply good_refl; exact Hm|constructor].
-  - simpl in Hes. apply andb_true_iff in Hes as [He Hr].
-    eapply post_bind; [apply Hev; auto|]. intros [v m1] [G1 Hv]. cbn [fst snd] in *.
-    eapply post_bind; [apply IH; [eapply good_mwf; eauto|exact Hr]|]. intros [vs m2] [G2 Hvs]. cbn [fst snd] in *.
-    split; [eapply good_trans; eauto|]. constructor; [|exact Hvs]. eapply vok_mono; [eapply good_hle; eauto|exact Hv].
-Qed.
-
-Lemma eval_rec_ok ks : forall vs acc m, mwf m -> length ks = length vs -> forallb expr_ok ks = true -> forallb expr_ok vs = true ->
-  Forall (eok (m_heap m)) acc ->
-  post (fun r => good m (snd r) /\ Forall (eok (m_heap (snd r))) (fst r)) (eval_rec ev ks vs acc m).
-Proof.
-  induction ks as [|k ks IH]; intros vs acc m Hm Hlen Hks Hvs Hacc; cbn [eval_rec].
-  - split; [apply good_refl; exact Hm|exact Hacc].
-  - destruct vs as [|v vs]; [discriminate|]. simpl in Hlen, Hks, Hvs.
-    apply andb_true_iff in Hks as [Hk Hks]. apply andb_true_iff in Hvs as [Hv Hvs].
-    eapply post_bind; [apply Hev; auto|]. intros [kv m1] [G1 Hkv]. cbn [fst snd] in *.
-    assert (Hacc1 : Forall (eok (m_heap m1)) acc) by (eapply Forall_eok_mono; [eapply good_hle; eauto|exact Hacc]).
-    destruct kv; try (cbn [tl]; eapply post_weaken; [|apply IH; eauto using good_mwf]; intros r [G2 Hr]; split; [eapply good_trans; eauto|exact Hr]).
-    eapply post_bind; [apply Hev; [eapply good_mwf; eauto|exact Hv]|]. intros [vv m2] [G2 Hvv]. cbn [fst snd] in *.
-    eapply post_weaken; [|apply IH; eauto using good_mwf].
-    + intros r [G3 Hr]. split; [|exact Hr]. eapply good_trans; [exact G1|]. eapply good_trans; eauto.
-    + apply alist_set_ok; [eapply Forall_eok_mono; [eapply good_hle; eauto|exact Hacc1]|exact Hvv].
-Qed.
-
-Lemma bind_args_ok ps : forall args env m, mwf m -> forallb expr_ok args = true -> Forall (eok (m_heap m)) env ->
-  post (fun r => good m (snd r) /\ Forall (eok (m_heap (snd r))) (fst r)) (bind_args ev ps args env m).
-Proof.
-  induction ps as [|p ps IH]; intros args env m Hm Ha Henv; cbn [bind_args].
-  - split; [apply good_refl; exact Hm|exact Henv].
-  - destruct args as [|a args].
-    + apply IH; auto. apply alist_set_ok; [exact Henv|exact I].
-    + simpl in Ha. apply andb_true_iff in Ha as [Ha1 Ha2].
-      eapply post_bind; [apply Hev; auto|]. intros [v m1] [G1 Hv]. cbn [fst snd] in *.
-      eapply post_weaken; [|apply IH; eauto using good_mwf].
-      * intros r [G2 Hr]. split; [eapply good_trans; eauto|exact Hr].
-      * apply alist_set_ok; [eapply Forall_eok_mono; [eapply good_hle; eauto|exact Henv]|exact Hv].
-Qed.
-
-Lemma eval_indexes_ok is : forall m, mwf m -> forallb expr_ok is = true ->
-  post (fun r => good m (snd r) /\ length (fst r) = length is) (eval_indexes ev is m).
-Proof.
-  induction is as [|i r IH]; intros m Hm His; cbn [eval_indexes].
-  - split; [apply good_refl; exact Hm|reflexivity].
-  - simpl in His. apply andb_true_iff in His as [Hi Hr].
-    eapply post_bind; [apply Hev; auto|]. intros [iv m1] [G1 Hiv]. cbn [fst snd] in *.
-    destruct iv; try exact I. simpl in Hiv.
-    destruct (get_list_ok code _ _ (w_h code m1 (good_mwf _ _ G1)) Hiv) as (l & -> & Hl). cbn [bind].
-    destruct l as [|[] ?]; try exact I.
-    + eapply post_bind; [apply IH; eauto using good_mwf|]. intros [p m2] [G2 Hp]. cbn [fst snd] in *.
-      split; [eapply good_trans; eauto|simpl; congruence].
-    + eapply post_bind; [apply IH; eauto using good_mwf|]. intros [p m2] [G2 Hp]. cbn [fst snd] in *.
-      split; [eapply good_trans; eauto|simpl; congruence].
-Qed.
-End Loops.
-
-Lemma fun_ok_stmt start : fun_ok code start -> exists s, stmt_at code start = Some s.
-Proof.
-  intros (pc2 & e & p & Hsk & _). specialize (Hsk (init_machine [] (mkWorld [] [] []))).
-  unfold skip_block_from in Hsk. rewrite skip_block_S in Hsk.
-  destruct (stmt_at code start) as [s|]; [eauto|discriminate].
-Qed.
-
-(** ** one layer of the evaluator *)
-Lemma eval_step_ok ev cl : Pe ev -> Pcl cl -> Pe (eval_step code ev cl).
-Proof.
-  intros Hev Hcl e m Hm He. pose proof (good_refl code m Hm) as G0.
-  destruct e; cbn [eval_step]; cbn [expr_ok] in He.
-  - apply Qe_same; simpl; auto.
-  - apply Qe_same; simpl; auto.
-  - apply Qe_same; simpl; auto.
-  - apply Qe_same; simpl; auto.
-  - (* variable *)
-    destruct (lookup_var x (m_scopes m)) as [v|] eqn:E; [|apply post_rt_err].
-    apply Qe_same; auto. eapply lookup_ok; [apply (w_sc code m Hm)|exact E].
-  - (* list literal *)
-    eapply post_bind; [apply eval_list_ok; eauto|]. intros [vs m1] [G1 Hvs]. cbn [fst snd] in *.
-    destruct (alloc_list (m_heap m1) vs) as [a h'] eqn:E.
-    destruct (alloc_list_ok code _ _ _ _ (w_h code m1 (good_mwf _ _ G1)) Hvs E) as (P1 & P2 & P3).
-    apply Qe_of_good; [apply good_set_heap; auto|exact P3].
-  - (* record literal *)
-    apply andb_true_iff in He as [He Hvs]. apply andb_true_iff in He as [Hlen Hks]. apply Nat.eqb_eq in Hlen.
-    eapply post_bind; [apply eval_rec_ok; eauto|]. intros [r m1] [G1 Hr]. cbn [fst snd] in *.
-    destruct (alloc_rec (m_heap m1) r) as [a h'] eqn:E.
-    destruct (alloc_rec_ok code _ _ _ _ (w_h code m1 (good_mwf _ _ G1)) Hr E) as (P1 & P2 & P3).
-    apply Qe_of_good; [apply good_set_heap; auto|exact P3].
-  - (* group *) apply Hev; auto.
-  - (* unary *)
-    eapply post_bind; [apply Hev; auto|]. intros [v m1] [G1 Hv]. cbn [fst snd] in *.
-    destruct v, o; try exact I; apply Qe_of_good; simpl; auto.
-  - (* binary *)
-    apply andb_true_iff in He as [Hl Hr].
-    assert (Two : forall x1 x2, expr_ok x1 = true -> expr_ok x2 = true ->
-              forall (k : value -> value -> machine -> outcome (value * machine)),
-              (forall v1 v2 m2, good m m2 -> vok (m_heap m2) v1 -> vok (m_heap m2) v2 -> post (Qe m) (k v1 v2 m2)) ->
-              post (Qe m) (do '(v1, m1) <- ev x1 m; do '(v2, m2) <- ev x2 m1; k v1 v2 m2)).
-    { intros x1 x2 H1 H2 k Hk.
-      eapply post_bind; [apply Hev; auto|]. intros [v1 m1] [G1 Hv1]. cbn [fst snd] in *.
-      eapply post_bind; [apply Hev; eauto using good_mwf|]. intros [v2 m2] [G2 Hv2]. cbn [fst snd] in *.
-      apply Hk; [eapply good_trans; eauto| |exact Hv2]. eapply vok_mono; [eapply good_hle; eauto|exact Hv1]. }
-    destruct o.
-    + apply (Two e2 e1 Hr Hl (fun rv lv m2 => match rv, lv with VBool a, VBool b => Ok (VBool (a || b), m2) | _, _ => fail_at EType (expr_pos e1) m2 end)).
-      intros v1 v2 m2 G H1 H2. destruct v1, v2; try exact I. apply Qe_of_good; simpl; auto.
-    + apply (Two e2 e1 Hr Hl (fun rv lv m2 => match rv, lv with VBool a, VBool b => Ok (VBool (a && b), m2) | _, _ => fail_at EType (expr_pos e1) m2 end)).
-      intros v1 v2 m2 G H1 H2. destruct v1, v2; try exact I. apply Qe_of_good; simpl; auto.
-    + apply (Two e1 e2 Hl Hr (fun lv rv m2 => Ok (VBool (value_eqb lv rv), m2))).
-      intros v1 v2 m2 G H1 H2. apply Qe_of_good; simpl; auto.
-    + apply (Two e1 e2 Hl Hr (fun lv rv m2 => Ok (VBool (negb (value_eqb lv rv)), m2))).
-      intros v1 v2 m2 G H1 H2. apply Qe_of_good; simpl; auto.
-    + apply (Two e1 e2 Hl Hr (fun lv rv m2 => match lv, rv with VNum a, VNum b => Ok (VBool (f_ltb a b), m2) | _, _ => fail_at EType (expr_pos e1) m2 end)).
-      intros v1 v2 m2 G H1 H2. destruct v1, v2; try exact I. apply Qe_of_good; simpl; auto.
-    + apply (Two e1 e2 Hl Hr (fun lv rv m2 => match lv, rv with VNum a, VNum b => Ok (VBool (f_leb a b), m2) | _, _ => fail_at EType (expr_pos e1) m2 end)).
-      intros v1 v2 m2 G H1 H2. destruct v1, v2; try exact I. apply Qe_of_good; simpl; auto.
-    + apply (Two e1 e2 Hl Hr (fun lv rv m2 => match lv, rv with VNum a, VNum b => Ok (VBool (f_ltb b a), m2) | _, _ => fail_at EType (expr_pos e1) m2 end)).
-      intros v1 v2 m2 G H1 H2. destruct v1, v2; try exact I. apply Qe_of_good; simpl; auto.
-    + apply (Two e1 e2 Hl Hr (fun lv rv m2 => match lv, rv with VNum a, VNum b => Ok (VBool (f_leb b a), m2) | _, _ => fail_at EType (expr_pos e1) m2 end)).
-      intros v1 v2 m2 G H1 H2. destruct v1, v2; try exact I. apply Qe_of_good; simpl; auto.
-    + (* + *)
-      apply (Two e1 e2 Hl Hr (fun lv rv m2 =>
-               match lv, rv with
-               | VNum a, VNum b => Ok (VNum (f_add a b), m2)
-               | VStr a, VStr b => Ok (VStr (a ++ b), m2)
-               | VList a, VList b => do la <- get_list (m_heap m2) a; do lb <- get_list (m_heap m2) b;
-                                     let '(c, h') := alloc_list (m_heap m2) (la ++ lb) in Ok (VList c, set_heap m2 h')
-               | _, _ => fail_at EType (expr_pos e1) m2
-               end)).
-      intros v1 v2 m2 G H1 H2. destruct v1, v2; try exact I; try (apply Qe_of_good; simpl; auto).
-      simpl in H1, H2. pose proof (w_h code m2 (good_mwf _ _ G)) as Hh.
-      destruct (get_list_ok code _ _ Hh H1) as (la & -> & Hla). destruct (get_list_ok code _ _ Hh H2) as (lb & -> & Hlb). cbn [bind].
-      destruct (alloc_list (m_heap m2) (la ++ lb)) as [c h'] eqn:E.
-      destruct (alloc_list_ok code _ _ _ _ Hh (proj2 (Forall_app _ _ _) (conj Hla Hlb)) E) as (P1 & P2 & P3).
-      apply Qe_of_good; [apply good_set_heap; auto|exact P3].
-    + (* - *)
-      apply (Two e1 e2 Hl Hr (fun lv rv m2 =>
-               match lv, rv with
-               | VNum a, VNum b => Ok (VNum (f_sub a b), m2)
-               | VStr a, VStr b => fail_at EType (expr_pos e1) m2
-               | VList a, VList b => do la <- get_list (m_heap m2) a; do lb <- get_list (m_heap m2) b; fail_at EType (expr_pos e1) m2
-               | _, _ => fail_at EType (expr_pos e1) m2
-               end)).
-      intros v1 v2 m2 G H1 H2. destruct v1, v2; try exact I; try (apply Qe_of_good; simpl; auto).
-      simpl in H1, H2. pose proof (w_h code m2 (good_mwf _ _ G)) as Hh.
-      destruct (get_list_ok code _ _ Hh H1) as (la & -> & Hla). destruct (get_list_ok code _ _ Hh H2) as (lb & -> & Hlb). exact I.
-    + apply (Two e2 e1 Hr Hl (fun rv lv m2 => match rv, lv with VNum b, VNum a => Ok (VNum (f_mul a b), m2) | _, _ => fail_at EType (expr_pos e1) m2 end)).
-      intros v1 v2 m2 G H1 H2. destruct v1, v2; try exact I. apply Qe_of_good; simpl; auto.
-    + apply (Two e2 e1 Hr Hl (fun rv lv m2 => match rv, lv with VNum b, VNum a => Ok (VNum (f_div a b), m2) | _, _ => fail_at EType (expr_pos e1) m2 end)).
-      intros v1 v2 m2 G H1 H2. destruct v1, v2; try exact I. apply Qe_of_good; simpl; auto.
-    + apply (Two e2 e1 Hr Hl (fun rv lv m2 => match rv, lv with VNum b, VNum a => Ok (VNum (f_rem a b), m2) | _, _ => fail_at EType (expr_pos e1) m2 end)).
-      intros v1 v2 m2 G H1 H2. destruct v1, v2; try exact I. apply Qe_of_good; simpl; auto.
-  - (* call *)
-    apply andb_true_iff in He as [Hf Hargs].
-    destruct e; try apply post_rt_err.
-    destruct (is_builtin x).
-    { eapply post_bind; [apply eval_list_ok; eauto|]. intros [vs m1] [G1 Hvs]. cbn [fst snd] in *.
-      eapply post_weaken; [|apply call_builtin_ok; eauto using good_mwf]. intros r Hr. eapply Qe_trans; eauto. }
-    destruct (lookup_var x (m_scopes m)) as [fv|] eqn:El; [cbn [bind]|unfold rt_err, fail_here, unexpected_at; destruct (stmt_at code (m_pc m)); exact I].
-    pose proof (lookup_ok code _ _ _ _ (w_sc code m Hm) El) as Hfv.
-    destruct fv; try exact I. simpl in Hfv.
-    eapply post_bind; [apply bind_args_ok; eauto; constructor|]. intros [env m1] [G1 Henv]. cbn [fst snd] in *.
-    destruct (fun_ok_stmt _ Hfv) as [s0 Hs0]. rewrite Hs0.
-    destruct s0; try exact I.
-    destruct Hfv as (pc2 & re & rp & Hsk & Hret).
-    destruct G1 as (W1 & (S1 & S2 & S3 & S4 & S5) & L1).
-    set (m2 := mkM start (env :: m_scopes m1) (m_loops m1) (length (m_loops m)) (m_pc m1 :: m_ret m1) (m_heap m1) (m_out m1) (m_world m1) (m_collections m1)).
-    assert (W2 : mwf m2).
-    { constructor; cbn [m2 m_pc m_scopes m_heap m_loops].
-      - eapply stmt_at_lt; eauto.
-      - simpl. lia.
-      - constructor; [exact Henv|apply (w_sc code m1 W1)].
-      - apply (w_h code m1 W1).
-      - apply (w_lp code m1 W1). }
-    destruct (finv_init code m2 start pc2 re rp _ (length (m_scopes m)) Hs0 (Hsk m2) Hret m2 eq_refl) as [FS FI].
-    { cbn [m2 m_scopes]. simpl. congruence. }
-    { cbn [m2 m_loop_base m_loops]. congruence. }
-    set (F := mkF (Z.of_nat (S (length (m_scopes m))) - sd code start) start pc2 (m_loops m2) (m_ret m2)) in *.
-    eapply post_bind; [apply (Hcl m2 F W2 (or_introl FS) FI)|]. intros m3 (W3 & L3 & FI3 & (re3 & rp3 & Hr3)).
-    rewrite Hr3.
-    pose proof (fi_ret code F m3 FI3) as Hret3. cbn [F f_ret m2 m_ret] in Hret3. rewrite Hret3.
-    assert (Hre3 : expr_ok re3 = true) by (apply (code_stmt_ok code Hcode _ _ Hr3)).
-    pose proof (Hev re3 m3 W3 Hre3) as Hrv.
-    destruct (ev re3 m3) as [[v m4]| | |]; simpl in Hrv; try contradiction; try exact I.
-    destruct Hrv as [(W4 & (T1 & T2 & T3 & T4 & T5) & L4) Hv]. cbn [fst snd] in *.
-    pose proof (finv_height code F m3 FS FI3) as Hh. cbn [F f_off f_lo] in Hh.
-    assert (Hge : S (length (m_scopes m)) <= length (m_scopes m4)) by lia.
-    destruct (length (m_scopes m4) <? length (m_scopes m)) eqn:Elt; [apply Nat.ltb_lt in Elt; lia|].
-    destruct (fi_loops code F m3 FI3) as (fl & Hfl & _). cbn [F f_lower m2 m_loops] in Hfl.
-    apply Qe_of_good; [|exact Hv].
-    split; [|split].
-    + constructor; cbn [m_pc m_scopes m_heap m_loops].
-      * rewrite S1. apply (w_pc code m Hm).
-      * rewrite truncate_exact by lia. apply (w_ne code m Hm).
-      * apply truncate_sok. apply (w_sc code m4 W4).
-      * apply (w_h code m4 W4).
-      * apply truncate_sok. apply (w_lp code m4 W4).
-    + repeat split; cbn [m_pc m_scopes m_loops m_loop_base m_ret].
-      * exact S1.
-      * apply truncate_exact. lia.
-      * rewrite T3, Hfl, <- S3. apply truncate_app.
-      * exact S5.
-    + cbn [m_heap]. eapply hle_trans; [exact L1|]. eapply hle_trans; [|exact L4]. exact L3.
-  - (* index *)
-    apply andb_true_iff in He as [Ha Hi].
-    eapply post_bind; [apply Hev; auto|]. intros [av m1] [G1 Hav]. cbn [fst snd] in *.
-    eapply post_bind; [apply Hev; eauto using good_mwf|]. intros [iv m2] [G2 Hiv]. cbn [fst snd] in *.
-    assert (G : good m m2) by (eapply good_trans; eauto).
-    assert (Hav2 : vok (m_heap m2) av) by (eapply vok_mono; [apply (good_hle _ _ G2)|exact Hav]).
-    pose proof (w_h code m2 (good_mwf _ _ G)) as Hh.
-    destruct av, iv; try exact I.
-    + simpl in Hav2. destruct (get_list_ok code _ _ Hh Hav2) as (l & -> & Hl). cbn [bind].
-      destruct (valid_index x (length l)); [|exact I]. apply Qe_of_good; auto. apply nth_Forall; simpl; auto.
-    + simpl in Hav2. destruct (get_rec_ok code _ _ Hh Hav2) as (r & -> & Hr). cbn [bind].
-      destruct (alist_get s r) as [v|] eqn:E; [|exact I]. apply Qe_of_good; auto.
-      destruct (alist_get_ok _ _ _ _ Hr E) as [k' Hk]. exact Hk.
-Qed.
-
-
-(** ** one statement *)
-Definition Qi (m m' : machine) : Prop :=
-  mwf m' /\ hle (m_heap m) (m_heap m') /\ forall F, frame_static F -> finv F m -> finv F m'.
-
-Lemma Qi_after m m1 m' : good m m1 -> Qi m1 m' -> Qi m m'.
-Proof.
-  intros (W1 & S1 & L1) (W & L & Fr). split; [exact W|]. split; [eapply hle_trans; eauto|].
-  intros F FS FI. apply Fr; auto. eapply finv_sf; eauto.
-Qed.
-
-Definition plain (s : fstmt) : Prop := is_eos s = false /\ (forall p, s <> FContinue p) /\ (forall e p, s <> FReturn e p).
-
-(* a step to the next statement *)
-Lemma next_Qi m m' s : mwf m -> stmt_at code (m_pc m) = Some s -> plain s ->
-  m_pc m' = S (m_pc m) -> 1 <= length (m_scopes m') -> sok (m_heap m') (m_scopes m') -> hok (m_heap m') -> hle (m_heap m) (m_heap m') ->
-  m_loops m' = m_loops m -> m_loop_base m' = m_loop_base m -> m_ret m' = m_ret m ->
-  Z.of_nat (length (m_scopes m')) = (Z.of_nat (length (m_scopes m)) + delta s)%Z -> Qi m m'.
-Proof.
-  intros Hm Hs (P1 & P2 & P3) Hpc Hne Hsok Hhok Hle Hl Hb Hr Hlen.
-  split; [|split; [exact Hle|]].
-  - constructor; auto.
-    + rewrite Hpc. eapply code_next; eauto.
-    + rewrite Hl. apply (w_lp code m Hm).
-  - intros F FS FI. eapply finv_next; eauto.
-Qed.
-
-Lemma moved_Qi m m' s : mwf m -> stmt_at code (m_pc m) = Some s -> plain s -> delta s = 0%Z -> moved m m' -> Qi m m'.
-Proof.
-  intros Hm Hs Hp Hd (M1 & M2 & M3 & M4 & M5 & M6).
-  eapply next_Qi; eauto; try rewrite M2; try rewrite M3.
-  - apply (w_ne code m Hm).
-  - apply (w_sc code m Hm).
-  - apply (w_h code m Hm).
-  - apply hle_refl.
-  - rewrite Hd. lia.
-Qed.
-
-(* a forward jump *)
-Lemma jump_Qi m s t : mwf m -> stmt_at code (m_pc m) = Some s -> plain s -> delta s = 0%Z ->
-  m_pc m <= t -> t < length code -> sd code t = sd code (m_pc m) ->
-  (forall k, m_pc m <= k -> k <= t -> (sd code (m_pc m) <= sd code k)%Z) -> Qi m (set_pc m t).
-Proof.
-  intros Hm Hs (P1 & P2 & P3) Hd Hle Hlt Hsd Hnd.
-  split; [|split; [apply hle_refl|]].
-  - destruct Hm as [A B C D E]. constructor; auto.
-  - intros F FS FI. eapply finv_fwd; eauto.
-Qed.
-
-Lemma scopes_cons m : mwf m -> exists s r, m_scopes m = s :: r.
-Proof. intros Hm. pose proof (w_ne code m Hm). destruct (m_scopes m) as [|s r]; [simpl in *; lia|eauto]. Qed.
-
-Ltac plain_tac := split; [reflexivity|split; intros; discriminate].
-
-Lemma interp_step_ok ev : Pe ev -> Pip (interp_step code ev).
-Proof.
-  intros Hev m Hm. unfold interp_step.
-  destruct (stmt_at code (m_pc m)) as [s|] eqn:Hs.
-  2:{ pose proof (w_pc code m Hm) as Hpc. unfold stmt_at in Hs. apply nth_error_None in Hs. lia. }
-  pose proof (code_stmt_ok code Hcode _ _ Hs) as Hok.
-  match goal with |- post _ ?x => change (post (Qi m) x) end.
-  destruct s; cbn [stmt_ok] in Hok.
-  - (* print *)
-    eapply post_bind; [apply Hev; auto|]. intros [v m1] [G1 Hv]. cbn [fst snd] in *.
-    pose proof G1 as (W1 & (S1 & _) & _).
-    eapply post_weaken; [|apply do_print_ok; [apply (w_h code m1 W1)|exact Hv]].
-    intros m' Hmv. eapply Qi_after; [exact G1|]. eapply moved_Qi; eauto; [rewrite S1; exact Hs|plain_tac|reflexivity].
-  - eapply post_bind; [apply Hev; auto|]. intros [v m1] [G1 Hv]. cbn [fst snd] in *.
-    pose proof G1 as (W1 & (S1 & _) & _).
-    eapply post_weaken; [|apply do_print_ok; [apply (w_h code m1 W1)|exact Hv]].
-    intros m' Hmv. eapply Qi_after; [exact G1|]. eapply moved_Qi; eauto; [rewrite S1; exact Hs|plain_tac|reflexivity].
-  - (* declaration / assignment *)
-    destruct k.
-    + apply andb_true_iff in Hok as [Hidx Hinit]. destruct init as [e|].
-      * eapply post_bind; [apply Hev; auto|]. intros [v m1] [G1 Hv]. cbn [fst snd] in *.
-        pose proof G1 as (W1 & (S1 & _) & _).
-        destruct (scopes_cons m1 W1) as (s0 & r & Esc). rewrite Esc. cbn [declare bind].
-        eapply Qi_after; [exact G1|].
-        eapply next_Qi with (s := FAssign AFirst x xp idx (Some e) p); [exact W1|rewrite S1; exact Hs|plain_tac| | | | | | | | |]; cbn [next set_pc set_scopes m_pc m_scopes m_heap m_loops m_loop_base m_ret]; auto.
-        -- simpl. lia.
-        -- pose proof (w_sc code m1 W1) as Hsc. rewrite Esc in Hsc. inversion Hsc; subst. constructor; auto. apply alist_set_ok; auto.
-        -- apply (w_h code m1 W1).
-        -- apply hle_refl.
-        -- rewrite Esc. simpl. lia.
-      * destruct (scopes_cons m Hm) as (s0 & r & Esc). rewrite Esc. cbn [declare bind].
-        eapply next_Qi with (s := FAssign AFirst x xp idx None p); [exact Hm|exact Hs|plain_tac| | | | | | | | |]; cbn [next set_pc set_scopes m_pc m_scopes m_heap m_loops m_loop_base m_ret]; auto.
-        -- simpl. lia.
-        -- pose proof (w_sc code m Hm) as Hsc. rewrite Esc in Hsc. inversion Hsc; subst. constructor; auto. apply alist_set_ok; auto. exact I.
-        -- apply (w_h code m Hm).
-        -- apply hle_refl.
-        -- rewrite Esc. simpl. lia.
-    + apply andb_true_iff in Hok as [Hidx Hinit]. destruct init as [e|]; [|discriminate].
-      eapply post_bind; [apply Hev; auto|]. intros [v m1] [G1 Hv]. cbn [fst snd] in *.
-      pose proof G1 as (W1 & (S1 & _) & _).
-      destruct idx as [|i0 idx'].
-      * destruct (assign_var x v (m_scopes m1)) as [ss|] eqn:Ea; [|apply post_rt_err].
-        destruct (assign_ok code _ _ _ _ _ (w_sc code m1 W1) Hv Ea) as [Hss Hlen].
-        eapply Qi_after; [exact G1|].
-        eapply next_Qi with (s := FAssign AReassign x xp [] (Some e) p); [exact W1|rewrite S1; exact Hs|plain_tac| | | | | | | | |]; cbn [next set_pc set_scopes m_pc m_scopes m_heap m_loops m_loop_base m_ret]; auto.
-        -- rewrite Hlen. apply (w_ne code m1 W1).
-        -- apply (w_h code m1 W1).
-        -- apply hle_refl.
-        -- rewrite Hlen. simpl. lia.
-      * destruct (lookup_var x (m_scopes m1)) as [c|] eqn:El; [|apply post_rt_err].
-        pose proof (lookup_ok code _ _ _ _ (w_sc code m1 W1) El) as Hc.
-        eapply post_bind; [apply eval_indexes_ok; eauto|]. intros [path m2] [G2 Hp]. cbn [fst snd] in *.
-        pose proof G2 as (W2 & (T1 & T2 & T3 & T4 & T5) & L2).
-        unfold here. rewrite T1, S1, Hs. cbn [bind].
-        destruct (lookup_var x (m_scopes m2)) as [c2|] eqn:El2; [|apply post_rt_err].
-        pose proof (lookup_ok code _ _ _ _ (w_sc code m2 W2) El2) as Hc2.
-        eapply post_bind.
-        { apply assign_path_ok; [destruct path; [discriminate|discriminate]|apply (w_h code m2 W2)| |].
-          - exact Hc2.
-          - eapply vok_mono; [exact L2|exact Hv]. }
-        intros m3 (h' & -> & Hh' & Hle'). cbn beta.
-        eapply Qi_after; [eapply good_trans; [exact G1|exact G2]|].
-        eapply next_Qi with (s := FAssign AReassign x xp (i0 :: idx') (Some e) p); [exact W2|rewrite T1, S1; exact Hs|plain_tac| | | | | | | | |]; cbn [next set_pc set_heap m_pc m_scopes m_heap m_loops m_loop_base m_ret]; auto.
-        -- apply (w_ne code m2 W2).
-        -- eapply sok_mono; [exact Hle'|apply (w_sc code m2 W2)].
-        -- simpl. lia.
-  - (* expression statement *)
-    eapply post_bind; [apply Hev; auto|]. intros [v m1] [G1 Hv]. cbn [fst snd] in *.
-    pose proof G1 as (W1 & (S1 & _) & _).
-    eapply Qi_after; [exact G1|]. eapply moved_Qi with (s := FExpr e p); [exact W1|rewrite S1; exact Hs|plain_tac|reflexivity|].
-    unfold moved, next; simpl; repeat split.
-  - (* block start *)
-    eapply next_Qi with (s := FBlockStart p); [exact Hm|exact Hs|plain_tac| | | | | | | | |]; cbn [next set_pc set_scopes m_pc m_scopes m_heap m_loops m_loop_base m_ret]; auto.
-    + simpl. lia.
-    + constructor; [constructor|apply (w_sc code m Hm)].
-    + apply (w_h code m Hm).
-    + apply hle_refl.
-    + cbn [length delta]. lia.
-  - (* block end *)
-    destruct (length (m_scopes m) <=? 1) eqn:El; [apply post_rt_err|]. apply Nat.leb_gt in El.
-    destruct (m_scopes m) as [|s0 r] eqn:Esc; [simpl in El; lia|].
-    eapply next_Qi with (s := FBlockEnd p); [exact Hm|exact Hs|plain_tac| | | | | | | | |]; cbn [next set_pc set_scopes m_pc m_scopes m_heap m_loops m_loop_base m_ret tl]; auto.
-    + simpl in El. lia.
-    + pose proof (w_sc code m Hm) as Hsc. rewrite Esc in Hsc. inversion Hsc; subst. assumption.
-    + apply (w_h code m Hm).
-    + apply hle_refl.
-    + rewrite Esc. cbn [length delta]. lia.
-  - (* function definition *)
-    assert (Hn : S (m_pc m) < length code) by (eapply code_next; eauto).
-    destruct (stmt_at code (S (m_pc m))) as [s1|] eqn:Hs1.
-    2:{ unfold stmt_at in Hs1. apply nth_error_None in Hs1. lia. }
-    destruct s1; try exact I. destruct e; try exact I. destruct e; try exact I.
-    match goal with |- context [match ?nm with Some _ => _ | None => _ end] => destruct nm as [params|]; [|exact I] end.
-    destruct (scopes_cons m Hm) as (s0 & r & Esc). rewrite Esc. cbn [declare bind].
-    destruct (skip_block_from code m (S (S (m_pc m)))) as [pc2| | |] eqn:Esk; try exact I.
-    2:{ unfold skip_block_from in Esk. exfalso. revert Esk. generalize (S (length code - S (S (m_pc m)))) as fu. intros fu.
-        generalize (S (S (m_pc m))) as q. generalize 0 as d. induction fu as [|fu IH]; intros d q; [discriminate|].
-        rewrite skip_block_S. destruct (stmt_at code q) as [[]|]; try discriminate; try apply IH. destruct d as [|[|d']]; try discriminate. apply IH. }
-    cbn [bind].
-    destruct (stmt_at code pc2) as [s2|] eqn:Hs2; [|exact I]. destruct s2; try exact I.
-    destruct (skip_from_sd code _ _ _ Esk) as (K1 & _ & K3 & K4).
-    pose proof (sd_S code _ _ Hs) as D0. pose proof (sd_S code _ _ Hs1) as D1. pose proof (sd_S code _ _ Hs2) as D2. cbn [delta] in D0, D1, D2.
-    assert (Hfun : fun_ok code (S (S (m_pc m)))).
-    { exists pc2, e, p3. split; [|exact Hs2]. intros m'. unfold skip_block_from in *. eapply skip_block_indep; eauto. }
-    assert (Hend : S pc2 < length code) by (eapply code_next; eauto).
-    set (m' := set_scopes m (alist_set x (VFun (S (S (m_pc m))) params) s0 :: r)).
-    assert (Wm' : mwf m').
-    { destruct Hm as [A B C D E]. constructor; cbn [m' set_scopes m_pc m_scopes m_heap m_loops]; auto.
-      - simpl. lia.
-      - rewrite Esc in C. inversion C; subst. constructor; auto. apply alist_set_ok; auto. }
-    assert (Q : Qi m' (set_pc m' (S pc2))).
-    { eapply jump_Qi with (s := FFuncDef p); [exact Wm'|exact Hs|plain_tac|reflexivity|cbn [m' set_scopes m_pc]; lia|exact Hend|cbn [m' set_scopes m_pc]; lia|].
-      cbn [m' set_scopes m_pc]. intros k Hk1 Hk2. destruct (Nat.eq_dec k (m_pc m)) as [->|]; [lia|]. destruct (Nat.eq_dec k (S (m_pc m))) as [->|]; [lia|].
-      destruct (Nat.eq_dec k (S pc2)) as [->|]; [lia|]. specialize (K4 k ltac:(lia) ltac:(lia)). lia. }
-    destruct Q as (Q1 & Q2 & Q3). split; [exact Q1|]. split; [exact Q2|].
-    intros F FS FI. apply Q3; auto. eapply finv_sf; [|exact FI]. cbn [m' set_scopes]. unfold sf; simpl. rewrite Esc. simpl. repeat split.
-  - (* return *) apply post_rt_err.
-  - (* if *)
-    eapply post_bind; [apply Hev; auto|]. intros [v m1] [G1 Hv]. cbn [fst snd] in *.
-    pose proof G1 as (W1 & (S1 & _) & _).
-    destruct v; try exact I. destruct b.
-    + eapply Qi_after; [exact G1|]. eapply moved_Qi with (s := FIf c p); [exact W1|rewrite S1; exact Hs|plain_tac|reflexivity|].
-      unfold moved, next; simpl; repeat split.
-    + destruct (skip_block_from code m1 (S (m_pc m1))) as [pc'| | |] eqn:Esk; try exact I.
-      2:{ unfold skip_block_from in Esk. exfalso. revert Esk. generalize (S (length code - S (m_pc m1))) as fu. intros fu.
-          generalize (S (m_pc m1)) as q. generalize 0 as d. induction fu as [|fu IH]; intros d q; [discriminate|].
-          rewrite skip_block_S. destruct (stmt_at code q) as [[]|]; try discriminate; try apply IH. destruct d as [|[|d']]; try discriminate. apply IH. }
-      cbn [bind].
-      destruct (skip_from_sd code _ _ _ Esk) as (K1 & (q & bp & -> & Hq) & K3 & K4).
-      assert (Hs' : stmt_at code (m_pc m1) = Some (FIf c p)) by (rewrite S1; exact Hs).
-      pose proof (sd_S code _ _ Hs') as D0. cbn [delta] in D0.
-      assert (Hq' : S q < length code) by (eapply code_next; eauto).
-      assert (ND : forall k, m_pc m1 <= k -> k <= S q -> (sd code (m_pc m1) <= sd code k)%Z).
-      { intros k Hk1 Hk2. destruct (Nat.eq_dec k (m_pc m1)) as [->|]; [lia|]. specialize (K4 k ltac:(lia) Hk2). lia. }
-      assert (J : Qi m (set_pc m1 (S q))).
-      { eapply Qi_after; [exact G1|]. eapply jump_Qi with (s := FIf c p); [exact W1|exact Hs'|plain_tac|reflexivity|lia|exact Hq'|lia|exact ND]. }
-      destruct (stmt_at code (S q)) as [s2|] eqn:Hs2; [|exact J].
-      destruct s2; try exact J.
-      pose proof (sd_S code _ _ Hs2) as D2. cbn [delta] in D2.
-      apply post_ok. eapply Qi_after; [exact G1|].
-      eapply jump_Qi with (s := FIf c p); [exact W1|exact Hs'|plain_tac|reflexivity|lia|eapply code_next; eauto|lia|].
-      intros k Hk1 Hk2. destruct (Nat.eq_dec k (S (S q))) as [->|]; [lia|]. apply ND; lia.
-  - (* loop *)
-    assert (Hn : S (m_pc m) < length code) by (eapply code_next; eauto).
-    destruct (stmt_at code (S (m_pc m))) as [s1|] eqn:Hs1; [|exact I]. destruct s1; try exact I.
-    destruct (skip_block_from code m (S (m_pc m))) as [pc2| | |] eqn:Esk; try exact I.
-    2:{ unfold skip_block_from in Esk. exfalso. revert Esk. generalize (S (length code - S (m_pc m))) as fu. intros fu.
-        generalize (S (m_pc m)) as q. generalize 0 as d. induction fu as [|fu IH]; intros d q; [discriminate|].
-        rewrite skip_block_S. destruct (stmt_at code q) as [[]|]; try discriminate; try apply IH. destruct d as [|[|d']]; try discriminate. apply IH. }
-    cbn [bind]. destruct (stmt_at code pc2) as [s2|] eqn:Hs2; [|exact I]. destruct s2; try exact I.
-    assert (Hend : S pc2 < length code) by (eapply code_next; eauto).
-    split; [|split; [apply hle_refl|]].
-    + destruct Hm as [A B C D E]. constructor; cbn [set_pc set_loops m_pc m_scopes m_heap m_loops]; auto.
-      constructor; [|exact E]. unfold lwf; cbn [l_start l_end l_depth]. lia.
-    + intros F FS FI. eapply finv_enter_loop; eauto.
-  - (* continue *)
-    destruct (length (m_loops m) <=? m_loop_base m) eqn:Eg; [apply post_rt_err|]. apply Nat.leb_gt in Eg.
-    destruct (m_loops m) as [|l ls] eqn:El; [simpl in Eg; lia|].
-    pose proof (w_lp code m Hm) as Hlp. rewrite El in Hlp. inversion Hlp as [|? ? (L1 & L2 & L3) Hls]; subst.
-    split; [|split; [apply hle_refl|]].
-    + destruct Hm as [A B C D E]. constructor; cbn [set_pc set_scopes m_pc m_scopes m_heap m_loops]; auto.
-      * rewrite truncate_len_min. lia.
-      * apply truncate_sok. exact C.
-    + intros F FS FI. eapply (proj1 (finv_continue code F m l ls FS FI El ltac:(rewrite El; exact Eg))).
-  - (* break *)
-    destruct (length (m_loops m) <=? m_loop_base m) eqn:Eg; [apply post_rt_err|]. apply Nat.leb_gt in Eg.
-    destruct (m_loops m) as [|l ls] eqn:El; [simpl in Eg; lia|].
-    pose proof (w_lp code m Hm) as Hlp. rewrite El in Hlp. inversion Hlp as [|? ? (L1 & L2 & L3) Hls]; subst.
-    split; [|split; [apply hle_refl|]].
-    + destruct Hm as [A B C D E]. constructor; cbn [set_pc set_scopes set_loops m_pc m_scopes m_heap m_loops]; auto.
-      * rewrite truncate_len_min. lia.
-      * apply truncate_sok. exact C.
-    + intros F FS FI. eapply (proj1 (finv_break code F m l ls FS FI El ltac:(rewrite El; exact Eg))).
-  - (* else *)
-    destruct (skip_chain code m (S (length code)) (S (m_pc m))) as [m'| | |] eqn:Ech; try exact I.
-    2:{ exfalso. revert Ech. generalize (S (length code)) as k. generalize (S (m_pc m)) as q. intros q k. revert q.
-        induction k as [|k IH]; intros q; [discriminate|]. cbn [skip_chain].
-        match goal with |- context [skip_block_from code m ?a] => destruct (skip_block_from code m a) as [pc2| | |] eqn:Esk end; try discriminate.
-        - cbn [bind]. destruct (stmt_at code pc2) as [[]|]; try discriminate. apply IH.
-        - unfold skip_block_from in Esk. exfalso. revert Esk.
-          match goal with |- skip_block code ?fu m ?a 0 = _ -> _ => generalize fu as fu'; generalize a as q'; generalize 0 as d end.
-          intros d q' fu'. revert d q'. induction fu' as [|fu' IH']; intros d q'; [discriminate|].
-          rewrite skip_block_S. destruct (stmt_at code q') as [[]|]; try discriminate; try apply IH'. destruct d as [|[|d']]; try discriminate. apply IH'. }
-    destruct (skip_chain_sd code m _ _ _ Ech) as (t & -> & T1 & (q & bp & -> & Hq) & T3 & T4).
-    pose proof (sd_S code _ _ Hs) as D0. cbn [delta] in D0.
-    apply post_ok. eapply jump_Qi with (s := FElse p); [exact Hm|exact Hs|plain_tac|reflexivity|lia|eapply code_next; eauto|lia|].
-    intros k Hk1 Hk2. destruct (Nat.eq_dec k (m_pc m)) as [->|]; [lia|]. specialize (T4 k ltac:(lia) Hk2). lia.
-  - (* end of statements *) apply post_rt_err.
-Qed.
-
-(** ** the call loop *)
-Lemma call_loop_step_ok ip cl : Pip ip -> Pcl cl -> Pcl (call_loop_step code ip cl).
-Proof.
-  intros Hip Hcl m F Hm FS FI. unfold call_loop_step.
-  destruct (stmt_at code (m_pc m)) as [s|] eqn:Hs.
-  2:{ pose proof (w_pc code m Hm) as Hpc. unfold stmt_at in Hs. apply nth_error_None in Hs. lia. }
-  assert (Go : post (fun m' => mwf m' /\ hle (m_heap m) (m_heap m') /\ finv F m' /\ at_return m') (do m1 <- ip m; cl m1)).
-  { eapply post_bind; [apply Hip; exact Hm|]. intros m1 (W1 & L1 & Fr).
-    eapply post_weaken; [|apply (Hcl m1 F W1 FS (Fr F FS FI))].
-    intros m' (W & L & FI' & R). split; [exact W|]. split; [eapply hle_trans; eauto|]. split; assumption. }
-  destruct s; try exact Go.
-  split; [exact Hm|]. split; [apply hle_refl|]. split; [exact FI|]. exists e, p. exact Hs.
-Qed.
-
-(** ** all fuel *)
 Theorem no_panic_fuel : forall f, Pe (eval code f) /\ Pcl (call_loop code f) /\ Pip (interp code f).
-Proof.
-  induction f as [|f (IHe & IHc & IHi)].
-  - split; [|split]; intros ?; intros; exact I.
-  - split; [|split].
-    + intros e m Hm He. rewrite eval_S. apply eval_step_ok; auto.
-    + intros m F Hm FS FI. rewrite call_loop_S. apply call_loop_step_ok; auto.
-    + intros m Hm. rewrite interp_S. apply interp_step_ok; auto.
-Qed.
+Proof. intros f. apply (all_invariants_fuel code Hcode f). Qed.
 
 (** ** the whole run, under any collection schedule *)
 Theorem run_no_panic : forall fuel sched boundary m, mwf m ->
